@@ -37,6 +37,10 @@ MODELLED = INT_TYPES + ['decimal', 'boolean', 'double', 'float', 'hexBinary', 'b
 DUR_TYPES = ['duration', 'yearMonthDuration', 'dayTimeDuration']   # Lean recogniser + value (months, seconds)
 GREG_TYPES = ['time', 'gDay', 'gMonth', 'gMonthDay']   # Lean recogniser + field values + timezone
 # Lean recogniser over translator-generated character tables, spec = XML 1.0 (5th ed.) / Namespaces in XML productions
+# year-bearing date/time types: C11's Lean model of fromstring (imported read-only) + the XSD lexical productions of
+# EPV/Spec/XSDDateLex.lean (both XSD versions)
+STR_TYPES = ['string', 'untypedAtomic', 'normalizedString', 'token']   # identity / replace / collapse (total constructors)
+DATE_TYPES = ['date', 'dateTime', 'dateTimeStamp', 'gYear', 'gYearMonth']
 NAME_TYPES = {'NCName': 'NCName', 'ID': 'NCName', 'IDREF': 'NCName', 'ENTITY': 'NCName', 'Name': 'Name', 'NMTOKEN': 'NMTOKEN',
               'QName': 'QName'}
 SKIPPED_TYPES = ['anyAtomicType', 'NOTATION', 'error']   # no constructor function / abstract (XPST0080, XPST0017)
@@ -387,17 +391,35 @@ def g_tz(rng):
 
 
 def g_year(rng):
+    if rng.random() < 0.6:    # a year of the lexical space: both eras, leap and century years, more than four digits
+        k = rng.random()
+        if k < 0.35:
+            return '%04d' % rng.choice([rng.randint(1, 9999), 4, 100, 400, 1900, 2000, 2100, 2024, 1, 9999])
+        if k < 0.6:
+            return '-%04d' % rng.choice([rng.randint(1, 9999), 1, 4, 5, 100, 101, 400, 401, 9999])
+        if k < 0.75:
+            return rng.choice(['', '-']) + str(rng.choice([rng.randint(10000, 10 ** 7), 10000, 10004, 12000, 2 ** 31 - 1, 2 ** 31]))
+        return rng.choice(['0000', '-0000', '0004', '-0004', '-0005', '0100', '-0100', '-0101', '0400', '-0400', '-0401'])
     return rng.choice(['2000', '1999', '0001', '0000', '-0001', '9999', '10000', '12345', '-0044', '200', '02000',
-                       '2024', '1900', '-2000', '2147483648', '2147483649', '-2147483649', '99999999999'])
+                       '2024', '1900', '-2000', '2147483648', '2147483649', '-2147483649', '99999999999', '+2000', '--2000',
+                       '00001', '-02000', '010000'])
 
 
 def g_date(rng):
+    if rng.random() < 0.5:
+        return '%s-%02d-%02d' % (g_year(rng), rng.randint(1, 12), rng.choice([1, 28, 29, 30, 31, rng.randint(1, 31)]))
     return f'{g_year(rng)}-{rng.choice(["01", "02", "12", "13", "00", "1", "06"])}-' \
            f'{rng.choice(["01", "28", "29", "30", "31", "32", "00", "1"])}'
 
 
 def g_time(rng):
-    if rng.random() < 0.3:
+    k = rng.random()
+    if k < 0.4:    # a time of the lexical space
+        if rng.random() < 0.15:
+            return '24:00:00' + rng.choice(['', '.0', '.000', '.0000000'])
+        return '%02d:%02d:%02d' % (rng.randint(0, 23), rng.randint(0, 59), rng.randint(0, 59)) + \
+               rng.choice(['', '', '.%d' % rng.randint(0, 10 ** 7), '.0', '.000000', '.5', '.999999', '.9999999', '.000001'])
+    if k < 0.6:
         return '%02d:%02d:%02d' % (rng.randint(0, 25), rng.randint(0, 61), rng.randint(0, 61)) + \
                rng.choice(['', '', '.%d' % rng.randint(0, 10 ** 7), '.0', '.000000', '.'])
     return f'{rng.choice(["00", "12", "23", "24", "25", "1"])}:{rng.choice(["00", "59", "60", "5"])}:' \
@@ -532,6 +554,62 @@ CORPUS = [
 ]
 
 
+# the patterns of the pinned tree (finding F10n): a deviation from the XML productions is excused only when the
+# implementation behaves exactly as these patterns do
+_PINNED_NAME_PATTERNS = {
+    'NCName': r'^[^\d\W][\w.\-\u00B7\u0300-\u036F\u203F\u2040]*$',
+    'Name': r'^(?:[^\d\W]|:)[\w.\-:\u00B7\u0300-\u036F\u203F\u2040]*$',
+    'NMTOKEN': r'^[\w.\-:\u00B7\u0300-\u036F\u203F\u2040]+$',
+    'QName': (r'^(?:(?P<prefix>[^\d\W][\w\-.\u00B7\u0300-\u036F\u0387\u06DD\u06DE\u203F\u2040]*):)?'
+              r'(?P<local>[^\d\W][\w\-.\u00B7\u0300-\u036F\u0387\u06DD\u06DE\u203F\u2040]*)$'),
+}
+_PINNED_COMPILED = {}
+
+
+def pinned_name_accepts(family: str, s: str) -> bool:
+    import re
+    if family not in _PINNED_COMPILED:
+        _PINNED_COMPILED[family] = re.compile(_PINNED_NAME_PATTERNS[family])
+    x = s.strip(' \t\n\r') if family == 'QName' else xsd_collapse(s)
+    return _PINNED_COMPILED[family].match(x) is not None
+
+
+def name_boundary_cases():
+    """every border of the XML 1.0 (5th ed.) NameStartChar / NameChar ranges (first and last code point of each range and the
+    neighbours outside), in first and in later position, for the four pattern families — a deterministic sweep"""
+    ranges = [(0x41, 0x5A), (0x5F, 0x5F), (0x61, 0x7A), (0xC0, 0xD6), (0xD8, 0xF6), (0xF8, 0x2FF), (0x370, 0x37D), (0x37F, 0x1FFF),
+              (0x200C, 0x200D), (0x2070, 0x218F), (0x2C00, 0x2FEF), (0x3001, 0xD7FF), (0xF900, 0xFDCF), (0xFDF0, 0xFFFD),
+              (0x10000, 0xEFFFF), (0x2D, 0x2E), (0x30, 0x39), (0x3A, 0x3A), (0xB7, 0xB7), (0x300, 0x36F), (0x203F, 0x2040)]
+    cps_ = sorted({c for a, b in ranges for c in (a - 1, a, b, b + 1) if 0 < c < 0x110000 and not 0xD800 <= c < 0xE000})
+    out = []
+    for t in ('NCName', 'Name', 'NMTOKEN', 'QName'):
+        for c in cps_:
+            out.append((t, chr(c)))
+            out.append((t, 'a' + chr(c)))
+        if t == 'QName':
+            out += [(t, 'p:' + chr(c)) for c in cps_[::3]] + [(t, chr(c) + ':a') for c in cps_[1::3]]
+    return out
+
+
+def date_fields_text(kind, val):
+    """(text, fields) of a date/time value: `ok:year:month:day:us:tz` as the Lean driver prints Cal.DT"""
+    if kind != 'ok':
+        return str(val), None
+    try:
+        tz = val.tzinfo
+        if tz is None:
+            tzm = 'n'
+        else:
+            off = tz.utcoffset(None)
+            tot = off.days * 86400 + off.seconds
+            tzm = str(tot // 60) if tot % 60 == 0 and off.microseconds == 0 else f'?{off!r}'
+        us = ((val.hour * 60 + val.minute) * 60 + val.second) * 10 ** 6 + val.microsecond
+        fields = (val.year, val.month, val.day, us, tzm)
+        return 'ok:%d:%d:%d:%d:%s' % fields, fields
+    except Exception as e:
+        return 'ERR:OTHER:' + type(e).__name__, None
+
+
 # ------------------------------------------------------------------------------ lexical correspondence
 def x_paths(impl: Impl, t: str, s, v: str, pnames=('2', '31')):
     """the four XPath paths under XSD version v -> dict name -> ('ok', value) | ('err', text)"""
@@ -562,6 +640,12 @@ def lexical_cases(run: Run, impl: Impl, cases: list) -> None:
             lines.append(f'op=lang S={cps(s)}')
         elif t in NAME_TYPES:
             lines.append(f'op=name K={NAME_TYPES[t]} S={cps(s)}')
+        elif t in STR_TYPES:
+            lines.append(f'op=str K={t} S={cps(s)}')
+        elif t in DATE_TYPES:
+            lines.append(f'op=date K={t} V=11 S={cps(s)}')
+            if t != 'dateTimeStamp':
+                lines.append(f'op=date K={t} V=10 S={cps(s)}')
     answers = iter(run.driver('C10', lines))
 
     def parse(ans):
@@ -588,6 +672,12 @@ def lexical_cases(run: Run, impl: Impl, cases: list) -> None:
                 lang_ans = parse(next(answers))
             if t in NAME_TYPES:
                 name_ans = parse(next(answers))
+            if t in STR_TYPES:
+                str_ans = parse(next(answers))
+            if t in DATE_TYPES:
+                date_ans = {'11': parse(next(answers))}
+                if t != 'dateTimeStamp':
+                    date_ans['10'] = parse(next(answers))
             fl = ('w' if any((c.isspace() and c not in ' \t\n\r') for c in s) else '') + \
                  ('v' if s != xsd_collapse(s) else '')
         tags_w = []   # F10w, F10v are fixed on fix-c10-2: nothing is excused any more
@@ -675,9 +765,13 @@ def lexical_cases(run: Run, impl: Impl, cases: list) -> None:
                 else:
                     got_n = ('ok:' + cps(str(val))) if kind == 'ok' else val
                 st.count('lex:name-model:' + t)
-                tags_n = ['F10n'] if 'n' in nfl else []
-                if tags_n:
+                pinned = 'ok' if pinned_name_accepts(NAME_TYPES[t], s) else 'ERR:V'
+                if 'n' in nfl:
                     st.count('lex:flag:name-char-classified-differently')
+
+                def f10n(got):     # a deviation is excused only for exactly the behaviour of the pinned \\w-based pattern
+                    return ['F10n'] if 'n' in nfl and got.split(':')[0] + (':V' if got.startswith('ERR') else '') == pinned else []
+                tags_n = f10n(got_n)
                 if t == 'QName':
                     # the constructor itself with a bound namespace: any prefix is acceptable, only the lexical form counts
                     try:
@@ -692,7 +786,7 @@ def lexical_cases(run: Run, impl: Impl, cases: list) -> None:
                         run.disagree(Disagreement(case, impl=got_q, model=mm, what='qname-ctor-model', site='qname.py AbstractQName.__init__'))
                     elif got_q != sp:
                         run.disagree(Disagreement(case, impl=got_q, model=mm, spec=sp, what='qname-ctor-vs-xml-production',
-                                                  site='qname.py AbstractQName.__init__', tags=tags_n))
+                                                  site='qname.py AbstractQName.__init__', tags=f10n(got_q)))
                 if qname_ns_error:
                     pass       # undeclared prefix (FONS0004): only the bound constructor above is compared
                 elif got_n != mm:        # the tie first: the tables of the model are generated from the live patterns
@@ -700,6 +794,58 @@ def lexical_cases(run: Run, impl: Impl, cases: list) -> None:
                 elif got_n != sp:
                     run.disagree(Disagreement(case, impl=got_n, model=mm, spec=sp, what='name-vs-xml-production',
                                               site=f'datatypes {t}.pattern', tags=tags_n))
+            if t in STR_TYPES:
+                mm, _, sp, _ = str_ans
+                if kind == 'ok':
+                    try:
+                        got_t = 'ok:' + cps(val.value if t == 'untypedAtomic' else str(val))
+                    except Exception as e:
+                        got_t = 'ERR:OTHER:' + type(e).__name__
+                else:
+                    got_t = val
+                st.count('lex:string-model:' + t)
+                if got_t != mm:
+                    run.disagree(Disagreement(case, impl=got_t, model=mm, what='string-type-model', site=f'datatypes {t}'))
+                elif got_t != sp:
+                    run.disagree(Disagreement(case, impl=got_t, model=mm, spec=sp, what='string-type-vs-whitespace-facet',
+                                              site=f'datatypes {t}'))
+            if t in DATE_TYPES:
+                for ver, (mm, _, sp, _) in date_ans.items():
+                    if ver == '11':
+                        k2, v2 = kind, val
+                    else:     # the XSD 1.0 classes through the public path
+                        k2, v2 = impl.xpath('2', '1.0', f'xs:{t}($s)', {'s': s})
+                        if k2 != 'ok':
+                            v2 = {'ERR:FORG0001': 'ERR:V', 'ERR:FODT0001': 'ERR:A'}.get(v2, v2)
+                    st.count(f'lex:date-model:{t}/{ver}:' + ('ok' if k2 == 'ok' else str(v2)))
+                    got_d, ok_fields = date_fields_text(k2, v2)
+                    if got_d != {'ERR:O': 'ERR:A'}.get(mm, mm):
+                        run.disagree(Disagreement(dict(case, xsd=ver), impl=got_d, model=mm, what='date-model',
+                                                  site=f'datetime.py {t}.fromstring (XSD {ver})'))
+                        continue
+                    # against the lexical productions: acceptance, and the fields of the literal
+                    if sp == 'ERR:V':
+                        want = 'error'
+                        got_s = 'error' if k2 != 'ok' else got_d
+                    else:
+                        f = sp.split(':')[1:]
+                        ay, fm, fd_, fh, fmi, fs_, fus = (int(x) for x in f[:7])
+                        stored = ay if ay > 0 else ay - 1
+                        if abs(stored) >= 2 ** 31:
+                            continue           # beyond the implementation's year limit nothing is specified
+                        if fh == 24:
+                            want = f'ok:tz={f[7]}'
+                            got_s = f'ok:tz={ok_fields[4]}' if ok_fields else got_d
+                        else:
+                            want = f'ok:{ay}:{fm}:{fd_}:{((fh * 60 + fmi) * 60 + fs_) * 10 ** 6 + fus}:{f[7]}'
+                            if ok_fields:
+                                iy = ok_fields[0]
+                                got_s = f'ok:{iy if iy > 0 else iy + 1}:{ok_fields[1]}:{ok_fields[2]}:{ok_fields[3]}:{ok_fields[4]}'
+                            else:
+                                got_s = got_d
+                    if got_s != want:
+                        run.disagree(Disagreement(dict(case, xsd=ver), impl=got_s, model=mm, spec=want, what='date-vs-xsd-lexical',
+                                                  site=f'datetime.py {t}.fromstring (XSD {ver})'))
             if t in GREG_TYPES:
                 mm, _, sp, _ = greg_ans
                 if kind == 'ok':
@@ -1948,15 +2094,16 @@ def body(run: Run) -> int:
         'repr(float) (finite values of doubles are compared with CPython float() as reference, not with a Lean model)',
         'codecs hex/base64 of CPython (compared with the Lean codecs on every run)']
     run.assumptions += [
-        'types without a Lean recogniser (dates, durations, QName, anyURI, language, Name/NCName family, string types) '
-        'are compared path-against-path only',
+        'xs:anyURI has no Lean recogniser (validation rests on urllib.parse.urlparse of the standard library): it is '
+        'compared path-against-path only; every other constructible atomic type has a Lean model and an XSD lexical specification',
         'xs:anyAtomicType, xs:NOTATION, xs:error have no usable constructor and are excluded']
-    run.prove(['EPV.Props.C10', 'EPV.Props.C10Tables', 'EPV.Props.C10Tz', 'EPV.Props.C10Dur', 'EPV.Props.C10Greg', 'EPV.Props.C10Names'], ['EPV.Spec.XSDLexical', 'EPV.Model.Lexical'])
+    run.prove(['EPV.Props.C10', 'EPV.Props.C10Tables', 'EPV.Props.C10Tz', 'EPV.Props.C10Dur', 'EPV.Props.C10Greg', 'EPV.Props.C10Names', 'EPV.Props.C10Date', 'EPV.Props.C10Str'], ['EPV.Spec.XSDLexical', 'EPV.Model.Lexical'])
     try:
         impl = Impl()
         rng = run.rng
         types = [t for t in sorted(impl.types) if t not in SKIPPED_TYPES]
         cases = [c for c in CORPUS if c[0] in impl.types]
+        cases += name_boundary_cases()
         per_type = run.scale(350, 3000)
         for t in types:
             k = per_type * (2 if t in MODELLED else 1)
